@@ -166,6 +166,14 @@ def run_job(job, rec):
             continue
         if mode == "user":
             rec.check(h == kw["bandwidth"], "bandwidth", "user bandwidth not used", rec.context)
+        # astronomically far away and at infinity: density 0, cumulative 0 below and 1 above
+        far_ = (abs(s.min()) + abs(s.max()) + rngw + h) * 10.0 ** rng.uniform(15, 30)
+        xs_ = np.array([-far_, far_, -np.inf, np.inf, -1e300, 1e300])
+        pf, cf = guarded(kde, xs_), guarded(kde.cdf, xs_)
+        rec.count("far_point_checks")
+        okf = not isinstance(pf, Raised) and not isinstance(cf, Raised) and bool(np.all(np.asarray(pf, float) == 0)) \
+            and bool(np.all(np.abs(np.asarray(cf, float) - np.array([0, 1, 0, 1, 0, 1.0])) <= 1e-12))
+        rec.check(okf, "far-points", lambda: f"at x = {xs_.tolist()} the density is {pf!r} and the cumulative function {cf!r} (expected 0 and 0 / 1)", rec.context)
         ss = np.sort(s)
         q, n_edge = make_queries(rng, ss, h)
         rec.count("edge_queries", n_edge)
